@@ -7,6 +7,7 @@ package mqtt
 import (
 	"bytes"
 	"fmt"
+	"runtime"
 	"sync"
 	"testing"
 	"time"
@@ -80,6 +81,7 @@ type c20Entry struct {
 	Ptr     uintptr
 	kept    *Message // the handler keeps what it was given ...
 	atExit  c20Msg   // ... as it looked when the handler returned
+	hold    []byte   // the payload slice as received (address comparisons need the array to stay allocated)
 }
 
 func c20Run(tb rapid.TB, c c20Case) {
@@ -101,9 +103,10 @@ func c20Run(tb rapid.TB, c c20Case) {
 				ptr = uintptr(unsafe.Pointer(&m.Payload[0]))
 			}
 			snap := c20Snap(m)
+			hold := m.Payload // keeps the array alive: a freed array's address could be handed out again and look "shared"
 			c20Mutate(m, h.Mut)
 			mu.Lock()
-			entries = append(entries, c20Entry{Handler: i, Msg: cur, Snap: snap, Ptr: ptr, kept: m, atExit: c20Snap(m)})
+			entries = append(entries, c20Entry{Handler: i, Msg: cur, Snap: snap, Ptr: ptr, kept: m, atExit: c20Snap(m), hold: hold})
 			mu.Unlock()
 		})
 	}
@@ -137,11 +140,15 @@ func c20Run(tb rapid.TB, c c20Case) {
 	}
 
 	mutating := 0
+	var callerHolds [][]byte
+	defer func() { runtime.KeepAlive(callerHolds) }()
 	for mi, cm := range c.Msgs {
 		cur = mi
 		orig := cm
 		msg := cm.message()
 		var callerPtr uintptr
+		callerHold := msg.Payload // (see c20Entry.hold)
+		callerHolds = append(callerHolds, callerHold)
 		if len(msg.Payload) > 0 {
 			callerPtr = uintptr(unsafe.Pointer(&msg.Payload[0]))
 		}
